@@ -10,6 +10,7 @@ import (
 	"os/exec"
 	"path/filepath"
 	"runtime"
+	"runtime/debug"
 	"sort"
 	"strconv"
 	"strings"
@@ -305,13 +306,48 @@ func workerMain(p *Property, tier string, opt map[string]string) int {
 		if share < time.Second {
 			share = time.Second
 		}
-		r := jobs[i].Run(time.Now().Add(share))
+		r := runJobRecover(p.ID, jobs[i], time.Now().Add(share))
 		if r.Scenario == "" {
 			r.Scenario = jobs[i].Name
 		}
 		_ = enc.Encode(r)
 	}
 	return 0
+}
+
+// runJobRecover turns a panic that escapes a job (i.e. a panic of the code under test outside a managed thread) into a violation.
+func runJobRecover(prop string, j Job, deadline time.Time) (res *ScenResult) {
+	defer func() {
+		if r := recover(); r != nil {
+			stack := string(debug.Stack())
+			first := fmt.Sprint(r)
+			fn := panicSite(stack)
+			res = &ScenResult{Scenario: j.Name, Executions: 1, Exhaustive: false, Stopped: "panic",
+				Violations: []coop.Violation{{Scenario: j.Name, Error: "panic: " + first + "\n" + trimLines(stack, 30), Signature: prop + "|panic|" + fn + "|" + j.Name}}}
+		}
+	}()
+	return j.Run(deadline)
+}
+
+func trimLines(s string, n int) string {
+	l := strings.Split(s, "\n")
+	if len(l) > n {
+		l = l[:n]
+	}
+	return strings.Join(l, "\n")
+}
+
+// panicSite returns the first galaxy function on the stack.
+func panicSite(stack string) string {
+	for _, l := range strings.Split(stack, "\n") {
+		if strings.HasPrefix(l, "tkestack.io/galaxy/") {
+			if i := strings.Index(l, "("); i > 0 {
+				l = l[:i]
+			}
+			return strings.TrimPrefix(l, "tkestack.io/galaxy/")
+		}
+	}
+	return "unknown"
 }
 
 func parentMain(p *Property, tier string, opt map[string]string) int {
@@ -484,6 +520,9 @@ func report(p *Property, tier string, seed int, root string, results []*ScenResu
 		p.ID, tier, evals, len(distinct), len(nontriv), states, transitions, exhaustive, len(seenSig), len(knownHit), wall.Seconds())
 	if workerFailed > 0 {
 		fmt.Printf("note: %d worker process(es) failed; results are partial\n", workerFailed)
+		if rc == 0 {
+			rc = 2
+		}
 	}
 	return rc
 }
